@@ -333,4 +333,54 @@ theorem reindex_succeeds (o : Obj M) (new : List Nat) (fv : PyVal) (sa : Option 
     rw [hy] at he
     exact absurd he (by simp)
 
+/-! ## Non-vacuity (review): the hypotheses of the theorems above at a concrete reindex
+
+Old span `[10, 11, 12]`, new span `[12, 99, 10, 12]` (permuted, one absent label, one repeated label), an `int8` and a
+`<U1` variable, keyword fill for `S`. -/
+
+def exO : Obj Unit :=
+  ⟨[10, 11, 12], [("X", ⟨.int (-128) 127, [.i 1, .i 2, .i 3]⟩), ("S", ⟨.str 1, [.s ['.'], .s ['.'], .s ['F']]⟩)], false, ()⟩
+def exR : Obj Unit :=
+  ⟨[12, 99, 10, 12], [("X", ⟨.int (-128) 127, [.i 3, .i 0, .i 1, .i 3]⟩), ("S", ⟨.str 1, [.s ['F'], .s ['-'], .s ['.'], .s ['F']]⟩)],
+   false, ()⟩
+theorem exR_eq : reindex .list exO [12, 99, 10, 12] .none none [("S", .s ['-'])] = .ok exR := rfl
+
+-- reindex_spec / reindex_preserves_meta: `h`
+example : exR.span = [12, 99, 10, 12] ∧ exR.vars.length = exO.vars.length :=
+  ⟨(reindex_spec _ _ _ _ _ _ exR_eq).1, (reindex_spec _ _ _ _ _ _ exR_eq).2.1⟩
+example : ∃ data fill, exR.vars[1]? = some ("S", ⟨.str 1, data⟩) ∧ data.length = 4 ∧
+    coerce (.str 1) (chosenFill [("S", .s ['-'])] .none "S") = .ok fill ∧
+    ∀ (i l : Nat), ([12, 99, 10, 12] : List Nat)[i]? = some l → data[i]? = match firstIndex l [10, 11, 12] with
+      | some k => [Val.s ['.'], .s ['.'], .s ['F']][k]?
+      | none => some fill :=
+  (reindex_spec _ _ _ _ _ _ exR_eq).2.2 1 "S" ⟨.str 1, [.s ['.'], .s ['.'], .s ['F']]⟩ rfl
+example : exR.strict = exO.strict ∧ exR.extra = exO.extra :=
+  ⟨(reindex_preserves_meta _ _ _ _ _ _ _ exR_eq).2.1, (reindex_preserves_meta _ _ _ _ _ _ _ exR_eq).2.2.1⟩
+-- the same for a NumPy span (unique old labels)
+example : (reindex .numpy exO [12, 99, 10, 12] .none none [("S", .s ['-'])]).toOption.map (·.vars) = some exR.vars := by
+  decide +kernel
+-- default_by_kind: each premise holds of a real NumPy kind character
+example : branchOf 'u' = .int ∧ branchOf 'b' = .bool ∧ branchOf 'U' = .str ∧ branchOf 'S' = .bytes := by decide
+example : coerce (mkDType 'u' 2 []) .none = .ok (.i 0) := (default_by_kind 'u' 2 []).1 (by decide)
+-- reflected_branches / reflected_property_defaults: the premises hold of a probed row
+example : ∃ e ∈ Fsic.Generated.reindexProbes, branchOf e.2.1 ≠ .passthrough ∧ branchOf e.2.1 ≠ .bytes ∧
+    propertyDefault e.2.1 = some ("i", 0, false, []) :=
+  ⟨("uint16", 'u', 2, ("i", 0, false, []), ("i", 2, false, [])), by decide, by decide, by decide, by decide⟩
+-- fill_precedence: both premises
+example : [("S", PyVal.s ['-'])].lookup "S" = some (.s ['-']) ∧ [("S", PyVal.s ['-'])].lookup "X" = none := by decide
+-- reindex_strict_unknown: both premises of the first part, the premise of the second
+example : effectiveStrict none true = true ∧ hasUnknown [("Q", .i 1)] ["X"] = true ∧
+    effectiveStrict (some false) true = false := by decide
+example : reindex .list (⟨[1, 2], [("X", ⟨.float, [.f 0, .f 0]⟩)], true, ()⟩ : Obj Unit) [2, 3] .none none
+    [("Q", .i 1)] = .error .keyError :=
+  (reindex_strict_unknown .list ⟨[1, 2], [("X", ⟨.float, [.f 0, .f 0]⟩)], true, ()⟩ _ _ _ _).1 (by decide) (by decide)
+-- reindex_succeeds: hwf, hstrict, hco
+example : ∃ r, reindex .list exO [12, 99, 10, 12] .none none [("S", .s ['-'])] = .ok r :=
+  reindex_succeeds exO _ _ _ _ (by decide) (by decide) (by
+    intro nv h
+    simp only [exO, List.mem_cons, List.not_mem_nil, or_false] at h
+    rcases h with rfl | rfl <;> exact ⟨_, rfl⟩)
+-- … and a fill value that cannot be coerced (hco fails): `reindex` raises, so `hco` is a real restriction
+example : reindex .list exO [12, 99] (.i 1000) none [] = .error .coercion := rfl
+
 end Fsic.C12
